@@ -1,7 +1,14 @@
 from .harness import Mutant, edit_node, stmt_containing, compound_containing, to_pass, sub, is_call
 import ast
 W = 'src/pharmpy/workflows/workflow.py'
+def text_edit(old, new):
+    def edit(src):
+        return src.replace(old, new, 1) if old in src else None
+    return edit
 MUTANTS = [
+    Mutant('rename_after_optimise', 'src/pharmpy/workflows/dispatchers/local_dask/call.py', text_edit("    dsk[unique_name] = dsk.pop('results')\n    dsk_optimized = optimize_task_graph_for_dask_distributed(client, dsk)\n", "    dsk_optimized = optimize_task_graph_for_dask_distributed(client, dsk)\n    dsk_optimized[unique_name] = dsk_optimized.pop('results')\n"), 'W6', 'sink renamed after fusion'),
+    Mutant('add_task_conditional_node', 'src/pharmpy/workflows/workflow.py', text_edit("        self._g.add_node(task)\n        if predecessors is not None:", "        if predecessors is None:\n            self._g.add_node(task)\n        if predecessors is not None:"), 'W7', 'node only added without predecessors'),
+    Mutant('task_replace_or_default', 'src/pharmpy/workflows/task.py', text_edit('task_input = kwargs.get("task_input", self._task_input)', 'task_input = kwargs.get("task_input") or self._task_input'), 'Y0', 'empty replacement ignored'),
     Mutant('preds_before_static', W, edit_node('Workflow.as_dask_dict', stmt_containing('input_list = list(task.task_input)'),
            lambda seg: 'input_list = [ids[t] for t in self._g.predecessors(task)]\n            input_list.extend(task.task_input)\n            continue_marker = None') , 'W1', 'predecessor keys before static inputs'),
     Mutant('successors_instead', W, edit_node('Workflow.as_dask_dict', lambda n, seg: isinstance(n, ast.Call) and seg == 'self._g.predecessors(task)', lambda seg: 'self._g.successors(task)'), 'W1', 'wrong neighbours'),
